@@ -1,4 +1,5 @@
 import Pakhi.Lemmas.FrameX5
+import Pakhi.Lemmas.Relabel5
 namespace Pakhi
 section
 variable (X : Scope) (pre prog : List Stmt)
@@ -451,4 +452,94 @@ theorem runLoop_px (X : Scope) (hX : NoRefs X) (pre prog : List Stmt) (hprog : a
              | panic p => rfl
              | fuel => rfl)
 #print axioms runLoop_px
+end Pakhi
+
+namespace Pakhi
+section
+variable (σ : Meta → Meta) (K : List Str)
+
+mutual
+theorem avE_rel : ∀ (e : Expr), avE K e → avE K (relE σ e)
+  | .indexing e i m, h => by simp only [relE, avE] at h ⊢; exact ⟨avE_rel e h.1, avE_rel i h.2⟩
+  | .or l r m, h => by simp only [relE, avE] at h ⊢; exact ⟨avE_rel l h.1, avE_rel r h.2⟩
+  | .and l r m, h => by simp only [relE, avE] at h ⊢; exact ⟨avE_rel l h.1, avE_rel r h.2⟩
+  | .equality op l r m, h => by simp only [relE, avE] at h ⊢; exact ⟨avE_rel l h.1, avE_rel r h.2⟩
+  | .comparison op l r m, h => by simp only [relE, avE] at h ⊢; exact ⟨avE_rel l h.1, avE_rel r h.2⟩
+  | .addsub op l r m, h => by simp only [relE, avE] at h ⊢; exact ⟨avE_rel l h.1, avE_rel r h.2⟩
+  | .muldiv op l r m, h => by simp only [relE, avE] at h ⊢; exact ⟨avE_rel l h.1, avE_rel r h.2⟩
+  | .unary op r m, h => by simp only [relE, avE] at h ⊢; exact avE_rel r h
+  | .call f args m, h => by simp only [relE, avE] at h ⊢; exact ⟨avE_rel f h.1, avEs_rel args h.2⟩
+  | .nil m, _ => by simp only [relE, avE]
+  | .bool b m, _ => by simp only [relE, avE]
+  | .num b m, _ => by simp only [relE, avE]
+  | .str s m, _ => by simp only [relE, avE]
+  | .list es m, h => by simp only [relE, avE] at h ⊢; exact avEs_rel es h
+  | .record ks vs m, h => by simp only [relE, avE] at h ⊢; exact ⟨avEs_rel ks h.1, avEs_rel vs h.2⟩
+  | .var tok m, h => by simp only [relE, avE, relTok_lexeme] at h ⊢; exact h
+  | .group e m, h => by simp only [relE, avE] at h ⊢; exact avE_rel e h
+theorem avEs_rel : ∀ (es : Exprs), avEs K es → avEs K (relEs σ es)
+  | .nil, _ => by simp only [relEs, avEs]
+  | .cons e es, h => by simp only [relEs, avEs] at h ⊢; exact ⟨avE_rel e h.1, avEs_rel es h.2⟩
+end
+
+theorem avL_rel (l : List Stmt) (h : avL K l) : avL K (relL σ l) := by
+  intro st hst
+  obtain ⟨st0, hm, rfl⟩ := List.mem_map.mp hst
+  have h0 := h st0 hm
+  cases st0 <;> simp only [relS, avS] at h0 ⊢ <;> try exact avE_rel σ K _ h0
+  rename_i a m
+  obtain ⟨h1, h2, h3⟩ := h0
+  refine ⟨h1, ?_, ?_⟩
+  · intro e he
+    simp only [relA] at he
+    obtain ⟨e0, he0, rfl⟩ := List.mem_map.mp he
+    exact avE_rel σ K e0 (h2 e0 he0)
+  · intro e he
+    simp only [relA] at he
+    cases hi : a.init with
+    | none => simp [hi] at he
+    | some e0 => simp [hi] at he; subst he; exact avE_rel σ K e0 (h3 e0 hi)
+
+mutual
+theorem wf_rel : ∀ (e : Expr), (relE σ e).wf = e.wf
+  | .indexing e i m => by simp only [relE, Expr.wf, wf_rel e, wf_rel i]
+  | .or l r m => by simp only [relE, Expr.wf, wf_rel l, wf_rel r]
+  | .and l r m => by simp only [relE, Expr.wf, wf_rel l, wf_rel r]
+  | .equality op l r m => by simp only [relE, Expr.wf, wf_rel l, wf_rel r]
+  | .comparison op l r m => by simp only [relE, Expr.wf, wf_rel l, wf_rel r]
+  | .addsub op l r m => by simp only [relE, Expr.wf, wf_rel l, wf_rel r]
+  | .muldiv op l r m => by simp only [relE, Expr.wf, wf_rel l, wf_rel r]
+  | .unary op r m => by simp only [relE, Expr.wf, wf_rel r]
+  | .call f args m => by simp only [relE, Expr.wf, wfs_rel args]
+  | .nil m => rfl
+  | .bool b m => rfl
+  | .num b m => rfl
+  | .str s m => rfl
+  | .list es m => by simp only [relE, Expr.wf, wfs_rel es]
+  | .record ks vs m => by simp only [relE, Expr.wf, wfs_rel ks, wfs_rel vs, len_rel ks, len_rel vs]
+  | .var tok m => rfl
+  | .group e m => by simp only [relE, Expr.wf, wf_rel e]
+theorem wfs_rel : ∀ (es : Exprs), (relEs σ es).wf = es.wf
+  | .nil => rfl
+  | .cons e es => by simp only [relEs, Exprs.wf, wf_rel e, wfs_rel es]
+theorem len_rel : ∀ (es : Exprs), (relEs σ es).length = es.length
+  | .nil => rfl
+  | .cons e es => by simp only [relEs, Exprs.length, len_rel es]
+end
+end
+end Pakhi
+
+namespace Pakhi
+theorem progWF_rel (σ : Meta → Meta) (prog : List Stmt) : progWF (relL σ prog) = progWF prog := by
+  simp only [progWF, List.all_map]
+  congr 1
+  funext st
+  cases st <;> simp only [Function.comp, relS, Stmt.wf, wf_rel]
+  rename_i a m
+  obtain ⟨k, v, ixs, init⟩ := a
+  simp only [relA, Assignment.wf, List.all_map]
+  have h1 : (ixs.all (Expr.wf ∘ relE σ)) = ixs.all Expr.wf := by
+    congr 1; funext e; exact wf_rel σ e
+  rw [h1]
+  cases init <;> simp [wf_rel]
 end Pakhi
